@@ -33,7 +33,8 @@ add("C01", "E1",
     "with the exact feasibility criterion (sign, support, sum, Hall's condition for every port subset) "
     "and the totals with the column sums. Part (b): on shipped models (quick 5, thorough all 17) one "
     "instruction is synthesised per distinct micro-op list of the plain YAML (thorough: per entry) "
-    "and all single-line kernels and all ordered pairs over <=40 of them are checked the same way.",
+    "and all single-line kernels and all ordered pairs over <=40 of them are checked the same way; "
+    "memory-composed real instructions (register form + load/store rows) are part of the alphabet.",
     "Trusted: mc/ref/ports.py (Hall criterion). Unbounded quantifier decided on the stated finite "
     "family only; D1 (second pass, multi-micro-op forms) is a listed known finding.",
     "DESIGN.md §4 C01")
@@ -43,7 +44,8 @@ add("C02", "E1",
     "bottleneck after the CLI's two balancing passes is compared with the exact optimum "
     "max_S confined(S)/|S|; clauses (1) never worse than uniform and (2) never below the optimum by "
     "more than one step are additionally decided for all kernels <=2 of the C01 families and for "
-    "all kernels <=2 over <=40 real instructions per shipped model (quick 5 models, thorough all).",
+    "all kernels <=2 over <=40 real instructions per shipped model (quick 6 models, thorough all) "
+    "incl. memory-composed ones and quads of two composed + two plain instructions.",
     "Trusted: exact optimum by Hall/max-flow duality (mc/ref/ports.py). The property's 'random "
     "exploration' clause is replaced by enumerated families (sampling is a different technique).",
     "DESIGN.md §4 C02")
